@@ -186,6 +186,8 @@ def scenario(par):
 
 
 kw = dict(n_jobs=N)
+if KIND == "mgr_busy":
+    kw["batch_size"] = 1      # the slow result and the victim must travel in different batches
 if sc.get("gen"):
     kw["return_as"] = "generator"
 if sc["managed"]:
